@@ -322,7 +322,13 @@ Proof.
   destruct a as [|v len|ac wc h]; cbn [b_store_address enc_addr]; intros H.
   - apply store_bits_ext. exact H.
   - inv_bind H. inv_bind H. inv_bind H. inv_bind H.
-    apply store_bits_ext in Ht. apply store_uint_ext in Ht0, Ht1.
+    apply store_bits_ext in Ht. apply store_uint_ext in Ht0.
+    assert (Hv : ext t0 t1 (enc (Z.to_nat len) v) []).
+    { destruct (Z.eqb_spec len 0) as [->|Hne]; cbn [negb] in Ht1.
+      - destruct (v =? 0); cbn [negb] in Ht1; [|discriminate]. injection Ht1 as <-.
+        change (enc (Z.to_nat 0) v) with (@nil bool). split; symmetry; apply app_nil_r.
+      - apply store_uint_ext. exact Ht1. }
+    clear Ht1. rename Hv into Ht1.
     pose proof (ext_trans _ _ _ _ _ _ _ (ext_trans _ _ _ _ _ _ _ Ht Ht0) Ht1) as [Hb Hr].
     apply end_cell_ok in Ht2. subst t2. apply store_cell_ext in H.
     rewrite Hb, Hr in H. cbn [b_empty b_bits b_refs app] in H.
@@ -495,7 +501,10 @@ Proof.
     rewrite (load_uint_app_n 2) by (reflexivity || lia). cbn [bind].
     change (1 =? 0) with false. change (1 =? 1) with true. cbv iota.
     rewrite (load_uint_app_n 9) by (try apply in_uint_iff; lia). cbn [bind].
-    rewrite load_uint_app by (lia || exact Hv). reflexivity.
+    destruct (Z.eqb_spec len 0) as [->|Hne]; cbn [negb].
+    + apply in_uint_iff in Hv. change (2 ^ 0) with 1 in Hv.
+      assert (Hv0 : v = 0) by lia. subst v. reflexivity.
+    + rewrite load_uint_app by (lia || exact Hv). reflexivity.
   - apply andb_prop in Hok. destruct Hok as [Hok Hac].
     apply andb_prop in Hok. destruct Hok as [Hok Hh].
     apply andb_prop in Hok. destruct Hok as [Hwc Hlen].
